@@ -202,6 +202,16 @@ func CloneNode(node ast.Node) ast.Node {
 	case *ast.Raw:
 		return ast.NewRaw(ClonePosition(n.Position), n.Marker, n.Tag, CloneNode(n.Text).(*ast.Text))
 
+	case *ast.Return:
+		var values []ast.Expression
+		if n.Values != nil {
+			values = make([]ast.Expression, len(n.Values))
+			for i, v := range n.Values {
+				values[i] = CloneExpression(v)
+			}
+		}
+		return ast.NewReturn(ClonePosition(n.Position), values)
+
 	case *ast.Select:
 		var text *ast.Text
 		if n.LeadingText != nil {
@@ -296,6 +306,10 @@ func CloneNode(node ast.Node) ast.Node {
 			copy(text, n.Text)
 		}
 		return ast.NewText(ClonePosition(n.Position), text, n.Cut)
+
+	case *ast.TypeDeclaration:
+		ident := CloneExpression(n.Ident).(*ast.Identifier)
+		return ast.NewTypeDeclaration(ClonePosition(n.Position), ident, CloneExpression(n.Type), n.IsAliasDeclaration)
 
 	case *ast.TypeSwitch:
 		var init ast.Node
